@@ -302,6 +302,69 @@ func (r *runner) onePolicy(id string, p *vd.Policy, forceOracle bool) bool {
 	if nconds > 0 {
 		r.tag("has-conditions")
 	}
+	// structural features (what the generator reaches is part of the evidence)
+	{
+		seenIn := map[string]int{}
+		emptyGroup, nilNames, twoGroups := false, false, false
+		maxLists, maxConds, entryInstrs := 0, 0, 0
+		for gi, g := range p.Groups {
+			if len(g.Names)+len(g.WithConds) == 0 {
+				emptyGroup = true
+			}
+			if len(g.Names) == 0 && len(g.WithConds) > 0 {
+				nilNames = true
+			}
+			per := map[string]int{}
+			perInstr := map[string]int{}
+			inGroup := map[string]bool{}
+			for _, n := range g.Names {
+				inGroup[n] = true
+			}
+			for _, nc := range g.WithConds {
+				inGroup[nc.Name] = true
+				per[nc.Name]++
+				perInstr[nc.Name] += 5 * len(nc.Conds)
+				if len(nc.Conds) > maxConds {
+					maxConds = len(nc.Conds)
+				}
+			}
+			for n, k := range per {
+				if k > maxLists {
+					maxLists = k
+				}
+				if perInstr[n] > entryInstrs {
+					entryInstrs = perInstr[n]
+				}
+			}
+			for n := range inGroup {
+				if prev, ok := seenIn[n]; ok && prev != gi {
+					twoGroups = true
+				}
+				seenIn[n] = gi
+			}
+		}
+		if twoGroups {
+			r.tag("feature:same-syscall-in-two-groups")
+		}
+		if emptyGroup {
+			r.tag("feature:empty-group")
+		}
+		if nilNames {
+			r.tag("feature:group-with-conditional-entries-only")
+		}
+		if maxLists >= 2 {
+			r.tag("feature:entry-with-several-lists")
+		}
+		if maxLists >= 8 {
+			r.tag("feature:entry-with->=8-lists")
+		}
+		if maxConds >= 7 {
+			r.tag("feature:list-with->6-conditions")
+		}
+		if entryInstrs > 255 {
+			r.tag("feature:entry-longer-than-255-instructions")
+		}
+	}
 	if nlists > 0 && nconds == 0 {
 		r.tag("empty-condition-list")
 	}
